@@ -4,6 +4,7 @@ module spells them as concrete protocol lines (the only place where abstract cla
 Pop3.tla with Pop3Trace.tla.
 """
 import json
+import os
 import random
 
 from lib.vlib import Inconclusive
@@ -274,6 +275,21 @@ def stls_stage(run, vh, quick):
                          json.dumps({k: ev.get(k) for k in ("a", "cls", "offered", "upgraded") if k in ev}), ev.get("c")),
                      {"behaviour": byid.get(r["trace"]), "rejection": r})
     run.cov["stls_behaviours"] = total
+    # unbounded in the length of behaviours: TypeOK /\ NeedsConfig is an inductive invariant of the typed copy (Apalache, SMT)
+    import shutil, subprocess, tempfile
+    if shutil.which("apalache-mc"):
+        d = tempfile.mkdtemp(prefix="apa-", dir=run.work)
+        shutil.copy(os.path.join(os.path.dirname(os.path.dirname(os.path.abspath(__file__))), "spec", "Pop3TlsTyped.tla"), d)
+        res = []
+        for init, length in (("Init", "0"), ("IndInit", "1")):
+            try:
+                p = subprocess.run(["apalache-mc", "check", "--cinit=CInit", "--init=" + init, "--inv=IndInv", "--length=" + length, "Pop3TlsTyped.tla"],
+                                   cwd=d, capture_output=True, text=True, timeout=300)
+                res.append("NoError" if "The outcome is: NoError" in p.stdout else "other")
+            except subprocess.TimeoutExpired:
+                res.append("timeout")
+        run.cov["stages"].append({"stage": "inductive-invariant", "module": "Pop3TlsTyped (Apalache)", "init_implies_inv": res[0], "inv_is_inductive": res[1]})
+        run.log("Apalache: Init => IndInv: %s; IndInv /\\ Next => IndInv': %s" % tuple(res))
 
 
 def c13(run, args):
